@@ -334,6 +334,7 @@ Definition step_side (h : heap) (sd : side) (o : op) : heap * side * list Z :=
       end
   | DelLayer _ name =>
       if negb (s_grid sp) then (h, sd, NOOP) else
+      if name =? EMPTY then (h, sd, NOOP) else                 (* the grid's own layer "empty" is never removed *)
       match assoc name (s_layers sp) with
       | None => (h, sd, [-1; E_MISSING])                        (* KeyError *)
       | Some _ =>
@@ -406,24 +407,42 @@ Definition step (st : state) (o : op) : state * list Z :=
 (* ------------------------------------------------------------------ observation *)
 Definition attr_code (o : option Z) : Z := match o with Some v => v | None => NOATTR end.
 
-Definition cell_view (h : heap) (sp : space) (c : nat) : list Z :=
-  let co := getc h c in
-  [Z.of_nat (k_idx co); k_cap co; Z.of_nat (length (k_agents co))]
-  ++ map (fun a => a_label (geta h a)) (k_agents co)
-  ++ [b2z (Nat.eqb (length (k_agents co)) O); attr_code (cell_get h c EMPTY)]
-  ++ flat_map (fun nl => [fst nl; attr_code (cell_get h c (fst nl)); nth (k_idx co) (l_data (getl h (snd nl))) NOATTR])
-              (s_layers sp).
-
 Definition idx_code (cells : list nat) (c : nat) : Z :=
   match index_of c cells with Some i => Z.of_nat i | None => -1 end.
 
+(* the abstract state of one cell / one side: everything the statement talks about, free of locations *)
+Record acell := { ac_idx : nat; ac_cap : Z; ac_labels : list Z; ac_conns : list (Z * Z);
+                  ac_empty : option Z; ac_layers : list (Z * option Z * Z) }.
+
+Definition abs_cell (h : heap) (sp : space) (c : nat) : acell :=
+  let co := getc h c in
+  {| ac_idx := k_idx co; ac_cap := k_cap co;
+     ac_labels := map (fun a => a_label (geta h a)) (k_agents co);
+     ac_conns := map (fun kt => (fst kt, idx_code (s_cells sp) (snd kt))) (k_conns co);
+     ac_empty := cell_get h c EMPTY;
+     ac_layers := map (fun nl => (fst nl, cell_get h c (fst nl), nth (k_idx co) (l_data (getl h (snd nl))) NOATTR))
+                      (s_layers sp) |}.
+
+Definition abs_side (h : heap) (sd : side) : list acell :=
+  map (abs_cell h (sd_space sd)) (s_cells (sd_space sd)).
+
+Definition acell_view (ac : acell) : list Z :=
+  [Z.of_nat (ac_idx ac); ac_cap ac; Z.of_nat (length (ac_labels ac))]
+  ++ ac_labels ac
+  ++ [b2z (Nat.eqb (length (ac_labels ac)) O); attr_code (ac_empty ac)]
+  ++ flat_map (fun t => [fst (fst t); attr_code (snd (fst t)); snd t]) (ac_layers ac).
+
 Definition DMOD : Z := 1000003.
 Definition dstep (acc x : Z) : Z := (acc * 131 + x) mod DMOD.
-Definition conn_digest (h : heap) (cells : list nat) : Z :=
-  fold_left (fun acc ic =>
-               fold_left (fun acc' kt => dstep (dstep acc' (fst kt + 2)) (idx_code cells (snd kt) + 2))
-                         (k_conns (getc h (snd ic))) (dstep acc (Z.of_nat (fst ic) + 1)))
-            (combine (seq 0 (length cells)) cells) 7.
+Definition conn_digest (acs : list acell) : Z :=
+  fold_left (fun acc iac =>
+               fold_left (fun acc' kt => dstep (dstep acc' (fst kt + 2)) (snd kt + 2))
+                         (ac_conns (snd iac)) (dstep acc (Z.of_nat (fst iac) + 1)))
+            (combine (seq 0 (length acs)) acs) 7.
+
+Definition empties_view (acs : list acell) : list Z :=
+  flat_map (fun iac => if Nat.eqb (length (ac_labels (snd iac))) O then [Z.of_nat (fst iac)] else [])
+           (combine (seq 0 (length acs)) acs).
 
 (* every agent listed by a cell points back to that cell; every known agent that has a cell is listed by a cell of the space *)
 Definition wiredb (h : heap) (sd : side) : bool :=
@@ -434,19 +453,15 @@ Definition wiredb (h : heap) (sd : side) : bool :=
                         | Some c => memn c cells && memn (snd la) (k_agents (getc h c))
                         end) (sd_tab sd).
 
-Definition empties_view (h : heap) (cells : list nat) : list Z :=
-  flat_map (fun ic => if Nat.eqb (length (k_agents (getc h (snd ic)))) O then [Z.of_nat (fst ic)] else [])
-           (combine (seq 0 (length cells)) cells).
-
-Definition members_view (h : heap) (cells : list nat) : list Z :=
-  map (fun a => a_label (geta h a)) (agents_of h cells).
+(* the observation of a side is a function of its abstract state (and the wiring flag) *)
+Definition aside_view (k : nat) (acs : list acell) (wired : bool) : list Z :=
+  (- (100 + Z.of_nat k)) :: flat_map acell_view acs
+  ++ (-9) :: empties_view acs
+  ++ (-8) :: flat_map ac_labels acs
+  ++ [conn_digest acs; b2z wired].
 
 Definition side_view (h : heap) (k : nat) (sd : side) : list Z :=
-  let sp := sd_space sd in
-  (- (100 + Z.of_nat k)) :: flat_map (cell_view h sp) (s_cells sp)
-  ++ (-9) :: empties_view h (s_cells sp)
-  ++ (-8) :: members_view h (s_cells sp)
-  ++ [conn_digest h (s_cells sp); b2z (wiredb h sd)].
+  aside_view k (abs_side h sd) (wiredb h sd).
 
 Definition set_view (h : heap) (k : nat) (ss : setside) : list Z :=
   (- (200 + Z.of_nat k)) :: Z.of_nat (length (ss_members ss)) :: map (fun a => a_label (geta h a)) (ss_members ss).
